@@ -19,7 +19,7 @@ RULE = ("case = one generated project with 2-6 source files x mode (check|edit);
         "sig_before/sig_after with signo 2 and 15 at operation k (quick: sampled, thorough: every k from the first source-dir "
         "operation on, plus start-up boundaries), plus signal+I/O-fault and two-signal plans. Non-trivial = signal delivered; "
         "distinct = (world, mode, k, action, signo).")
-PROBES = ["stalled_operation_after_signal", "unreadable_files_in_tree", "check_twin_passes", "signal_in_startup", "signal_in_discovery", "signal_in_pass1", "signal_in_pass2", "signal_after_last_file",
+PROBES = ["stdout_gone_with_signal", "stalled_operation_after_signal", "unreadable_files_in_tree", "check_twin_passes", "signal_in_startup", "signal_in_discovery", "signal_in_pass1", "signal_in_pass2", "signal_after_last_file",
           "signal_plus_fault", "two_signals"]
 ASSUMPTIONS = ["'has begun scanning the sources' = first operation on the source directory in the trace",
                "one more source file may be started after the signal (the stop flag is polled between files)"]
@@ -98,6 +98,8 @@ def evaluate(wm, knobs, plan, check, ctx, twin=None):
     extra = "+fault" if len(plan["faults"]) > len(sigf) else ("+2sig" if len(sigf) > 1 else "")
     if any(f["act"] == "stall" for f in plan["faults"]):
         extra = "+stall"
+    if plan.get("stdout_sig"):
+        extra = "+stdout-gone"
     tag = "%s|%s%s|%s" % (mode, signame, extra, phase)
     digest = hashlib.sha256((res.trace_digest() + core.digest_world(run["after"])).encode()).hexdigest()
     scenario = {"wm": world.wm_to_json(wm), "knobs": knobs, "plan": plan, "check": check}
@@ -235,6 +237,16 @@ def run_case(rng, idx, tier, ctx):
         extra.append(("stall", {"seed": base["seed"], "perm": True,
                                 "faults": [{"k": o.k, "act": "sig_before", "signo": rng.choice([2, 15])},
                                            {"k": o.k, "act": "stall", "frac": 4.0}]}))
+    near_top = wm.get("lock") is not None and (core.read_lock(wm["lock"]) or 0) >= 0xFFFFFFFF - 64
+    pass2 = [o for o in ops if phm.get(o.k) in ("scratch-open", "scratch-write", "rename", "after-rename", "read-after-mutation")]
+    if not check and pass2 and not wm["extra"] and not near_top and rng.random() < (0.5 if not thorough else 1.0):
+        # breadlog | tee log, Ctrl-C: the reader of the pipe dies of the same signal, so from the stop request on nothing can
+        # be printed any more.  (Only worlds in which the tool has nothing to say between the request and its exit: no
+        # unreadable files, ID range not running out - dying on such a line is the publish window of known finding F4.)
+        for _ in range(2 if not thorough else 8):
+            o = rng.choice(pass2)
+            extra.append(("stdout", {"seed": base["seed"], "perm": True, "stdout_sig": True,
+                                     "faults": [{"k": o.k, "act": rng.choice(["sig_before", "sig_after"]), "signo": rng.choice([2, 15])}]}))
     if not ctx.samples:
         ctx.samples.append({"mode": "check" if check else "edit", "files": sorted(wm["files"]), "k0": k0, "K": K,
                             "twin_ops": [o.short() for o in ops][:50], "first_plans": [p["faults"] for p in plans[:4]]})
@@ -264,6 +276,8 @@ def run_case(rng, idx, tier, ctx):
                 ctx.probes["two_signals"] += 1
             if name == "stall":
                 ctx.probes["stalled_operation_after_signal"] += 1
+            if name == "stdout":
+                ctx.probes["stdout_gone_with_signal"] += 1
         viols += vs
     return viols
 
